@@ -141,8 +141,12 @@ func (tx *Transaction) EncodeRLP(w io.Writer) error {
 // DecodeRLP implements rlp.Decoder
 func (tx *Transaction) DecodeRLP(s *rlp.Stream) error {
 	_, size, _ := s.Kind()
-	err := s.Decode(&tx.data)
+	var dec txdata
+	err := s.Decode(&dec)
 	if err == nil {
+		// replace the whole value (as UnmarshalJSON does): decoding into a
+		// Transaction that was used before must not keep its cached hash / sender
+		*tx = Transaction{data: dec}
 		tx.size.Store(common.StorageSize(rlp.ListSize(size)))
 	}
 
